@@ -464,6 +464,10 @@ class Impl:
         cb = _cb()
         self.cb = cb
         self.mesh = cb.Mesh()
+        # sides are projected to "geo" in the rich models: the user declares that surface once, on the mesh; it belongs to
+        # the model like the operations do and is written by every later assembly, too
+        if any(ex[0] == "project_side" for d in ops_desc for ex in d.get("extras", [])):
+            self.mesh.add_geometry({"geo": ["type searchablePlane", "planeType pointAndNormal", "point (0 0 0)", "normal (0 0 1)"]})
         self.ops = [build_op(d) for d in ops_desc]
         self.path = os.path.join(workdir, "bmd_%d.txt" % os.getpid())
         self.nwrites = 0
@@ -601,6 +605,8 @@ class Oracle:
         assembled once, vertices moved; patch types, default patch and merged pairs as set through the mesh"""
         cb = _cb()
         mesh = cb.Mesh()
+        if any(ex[0] == "project_side" for d in self.desc for ex in d.get("extras", [])):
+            mesh.add_geometry({"geo": ["type searchablePlane", "planeType pointAndNormal", "point (0 0 0)", "normal (0 0 1)"]})
         ops = [build_op(d) for (_k, d) in self.snap["ops"]]
         for op in ops:
             mesh.add(op)
